@@ -180,6 +180,9 @@ static std::string json_escape(const std::string &s) {
 static const char *arg(int argc, char **argv, const char *name, const char *dflt) { for (int i = 2; i + 1 < argc; i++) if (!std::strcmp(argv[i], name)) return argv[i + 1]; return dflt; }
 static bool flag(int argc, char **argv, const char *name) { for (int i = 2; i < argc; i++) if (!std::strcmp(argv[i], name)) return true; return false; }
 
+#ifdef SIM_GCOV
+extern "C" void __gcov_dump(void);
+#endif
 struct Outcome { std::string cls, site, msg; bool violated = false; std::vector<Switch> recorded; };
 // every plan execution happens in a forked child: function-local statics and lazily built tables are fresh, so
 // first-use races are visible in every run, and a corrupted process cannot influence the next run
@@ -199,7 +202,11 @@ static Outcome run_forked(const Plan &p, std::string *line_out = nullptr, Totals
         std::printf("W"); for (const Switch &w : rr.recorded) std::printf(" %llu:%u", (unsigned long long)w.event, w.thread); std::printf("\n");
         std::printf("N %d %016llx\n", rr.nontrivial ? 1 : 0, (unsigned long long)rr.sched_sig);
         if (rr.viol.set) std::printf("V class=%s site=%s msg=%s\n", rr.viol.cls.c_str(), one_line(rr.viol.site).c_str(), one_line(rr.viol.msg).c_str()); else std::printf("OK\n");
-        std::fflush(stdout); _exit(0);
+        std::fflush(stdout);
+#ifdef SIM_GCOV
+        __gcov_dump();        // reach measurement build only (tools/coverage.py)
+#endif
+        _exit(0);
     }
     close(fd[1]);
     std::string buf; char tmp[4096]; ssize_t n;
@@ -326,6 +333,24 @@ int main(int argc, char **argv) {
         if (sigfile) { std::ofstream f(sigfile, std::ios::binary); for (uint64_t h : distinct) f.write((const char *)&h, 8); }
         return unsupported ? 4 : 0;
     }
+    if (cmd == "kinds") {
+        // per-kind determinism probe: two threads executing the same kind under frequent preemption, three executions each, signatures must agree
+        int bad = 0;
+        for (int k = 0; k < bop_count(); k++) {
+            unsigned long long sigs[3] = {0, 0, 0}; bool viol = false; std::string cls;
+            for (int rep = 0; rep < 3; rep++) {
+                Plan p; p.seed = 7; p.pool_seed = 1 + (k % 6); p.sched_seed = 99 + k; p.mean_gap = 25; p.max_preemptions = 40; p.programs.resize(2);
+                for (int t = 0; t < 2; t++) for (int j = 0; j < 2; j++) { BOp o; o.kind = (uint16_t)k; o.a = 3 + 7 * t + j; o.b = 5 + t; o.c = 1000 * k + 77 * t + j; p.programs[t].push_back(o); }
+                std::string raw; Outcome o = run_forked(p, &raw, nullptr);
+                if (o.violated) { viol = true; cls = o.cls + " " + o.site + " " + o.msg; }
+                if (!raw.compare(0, 2, "T ")) { const char *q = raw.c_str() + 2; for (int f = 0; f < 11; f++) { while (*q && *q != ' ') ++q; while (*q == ' ') ++q; } sigs[rep] = std::strtoull(q, nullptr, 10); }
+            }
+            bool det = sigs[0] == sigs[1] && sigs[1] == sigs[2];
+            if (!det || viol) { ++bad; std::printf("KIND %d %s deterministic=%d %s\n", k, bop_name(k), det ? 1 : 0, viol ? cls.c_str() : ""); }
+        }
+        std::printf("kinds probed: %d, not deterministic or violating: %d\n", bop_count(), bad);
+        return bad ? 2 : 0;
+    }
     if (cmd == "dump") { uint64_t i = std::strtoull(arg(argc, argv, "--index", "0"), nullptr, 10); std::fputs(plan_to_text(gen_plan(run_seed(base, i))).c_str(), stdout); return 0; }
     if (cmd == "shrink") {
         uint64_t i = std::strtoull(arg(argc, argv, "--index", "0"), nullptr, 10); const char *out = arg(argc, argv, "--out", "replay.json");
@@ -343,7 +368,8 @@ int main(int argc, char **argv) {
         Plan p; std::string cls, err;
         if (argc < 3 || !read_replay(argv[2], p, cls, err)) { std::fprintf(stderr, "%s\n", err.c_str()); return 2; }
         if (flag(argc, argv, "--show")) std::fputs(plan_to_text(p).c_str(), stdout);
-        Outcome o = run_forked(p);
+        std::string raw; Outcome o = run_forked(p, &raw);
+        if (flag(argc, argv, "--sig") && !raw.compare(0, 2, "T ")) { const char *q = raw.c_str() + 2; for (int f = 0; f < 11; f++) { while (*q && *q != ' ') ++q; while (*q == ' ') ++q; } std::printf("SIG %016llx\n", std::strtoull(q, nullptr, 10)); }
         if (o.violated) { std::printf("V i=0 runseed=%llu class=%s step=0 site=%s msg=%s\n", (unsigned long long)p.seed, o.cls.c_str(), o.site.c_str(), o.msg.c_str()); return 1; }
         std::printf("OK no violation (expected class %s)\n", cls.c_str()); return 0;
     }
